@@ -111,6 +111,15 @@ def run(ctx, eng):
     ok = cm.lookup_keys(paths, '_transitions') == {'(self.state, input_)'}
     ctx.ob('FSM.step', fi.qual, 'table lookup keyed by (state, input)', ok,
            'self._transitions[(self.state, input_)]', node=fi.node)
+    # no input is accepted around the table: every returning path has read
+    # the cell of (state, input) - a shortcut for "stateless" inputs would be
+    # taken in CLOSED as well
+    around = [p for p in cm.normal_paths(paths)
+              if not cm.lookup_keys([p], '_transitions')]
+    ctx.ob('FSM.step', fi.qual, 'every accepted input went through the '
+           'table', not around, '%d returning paths do not read '
+           '_transitions' % len(around) if around else
+           'all returning paths read the cell', node=fi.node)
     # ---- gates
     cls = eng.m.cls('connection.H2Connection')
     methods = eng.m.methods_of(cls.qual)
